@@ -86,8 +86,19 @@ fn draw_name(ctx: &mut Ctx, label: &'static str) -> String {
 }
 
 fn draw_edge_string(ctx: &mut Ctx, label: &'static str, base: &str, cfg: &mut DCfg, what: &'static str) -> String {
-    match ctx.ch.weighted(label, &[6, 1, 1, 1, 1]) {
+    match ctx.ch.weighted(label, &[6, 1, 1, 1, 1, 1, 1]) {
         0 => base.to_string(),
+        5 => {
+            // multi-byte UTF-8, exactly 65,535 bytes (expressible)
+            cfg.edge_values += 1;
+            format!("{}a", "\u{e9}".repeat(32767))
+        }
+        6 => {
+            // multi-byte UTF-8, 65,536 bytes in 32,768 characters (not expressible)
+            cfg.edge_values += 1;
+            cfg.inexpressible.push(what);
+            "\u{e9}".repeat(32768)
+        }
         1 => {
             cfg.edge_values += 1;
             String::new()
